@@ -408,4 +408,13 @@ def r7(F, R):
         R.floor(3)
 
 
-RULES = [("R5", r5, None), ("R4", r4, None), ("R1", r1, None), ("R2", r2, None), ("R3", r3, None), ("R6", r6, None), ("R7", r7, ["all", "timestamps"])]
+def r8_setters(F, R):
+    """Cucumber's writer-wrapping builders forward to the like-named `writer::Ext` method; `Ext::repeat_skipped` / `repeat_failed` call the like-named `Repeat` constructor."""
+    roles.check_all_builder_setters(F, R, only=r"^(fail_on_skipped|fail_on_skipped_with|repeat_skipped|repeat_failed|repeat_if)$", floor=5)
+    for b in F.crate_bodies():
+        if (b.impl or {}).get("trait") == "writer::Ext" and re.search(r"::repeat_(skipped|failed)$", b.name):
+            want = re.search(r"::repeat_(skipped|failed)$", b.name).group(1)
+            callees = [re.sub(r"<[^<>]*(<[^<>]*(<[^<>]*>[^<>]*)*>[^<>]*)*>", "", callee_path(t) or "").replace("::::", "::").rsplit("::", 1)[-1] for _, t in b.calls() if "Repeat" in (callee_path(t) or "")]
+            R.check(callees == [want], f"ext-constructor/repeat_{want}", b, f"Ext::repeat_{want} -> Repeat::{want}", f"`Ext::repeat_{want}` builds its wrapper with {callees} (expected Repeat::{want})")
+
+RULES = [("R5", r5, None), ("R4", r4, None), ("R1", r1, None), ("R2", r2, None), ("R3", r3, None), ("R6", r6, None), ("R7", r7, ["all", "timestamps"]), ("R8", r8_setters, None)]
